@@ -419,6 +419,47 @@ def minimal_config():
     )
 
 
+def twin_config(cfg, which):
+    """Variant ``which`` of a configuration for the twin-sequence arm."""
+    cfg["pic_kind"] = "mid"
+    cfg["mix"] = None
+    if which == 1:
+        cfg["luma_exc"], cfg["cd_exc"] = ((1 << 10) - 1, (1 << 10) - 1) if cfg["luma_exc"] != (1 << 10) - 1 else (255, 255)
+        cfg["luma_off"], cfg["cd_off"] = 0, (cfg["cd_exc"] + 1) // 2
+    elif which == 2:
+        cfg["luma_exc"], cfg["cd_exc"] = (1 << 12) - 1, 255
+        cfg["luma_off"], cfg["cd_off"] = 0, 128
+    elif which == 3 and not cfg.get("qm"):
+        w2 = (cfg["wavelet"] + 1) % 7
+        if cfg["wavelet_ho"] == cfg["wavelet"]:
+            cfg["wavelet_ho"] = w2
+        cfg["wavelet"] = w2
+    elif which == 4:
+        cfg["color"] = [1, 2, 3] if cfg.get("color") != [1, 2, 3] else None
+    elif which == 5:
+        cfg["luma_off"] = 16 if cfg["luma_off"] != 16 else 0
+    elif which == 6:
+        # only the colour-difference range changes (another byte-size class)
+        cfg["cd_exc"] = 1023 if cfg["cd_exc"] != 1023 else 255
+        cfg["cd_off"] = (cfg["cd_exc"] + 1) // 2
+    elif which == 7:
+        # standard 8-bit video range (a preset signal range for most base formats)
+        cfg["luma_exc"], cfg["luma_off"], cfg["cd_exc"], cfg["cd_off"] = 219, 16, 224, 128
+    return cfg
+
+
+
+
+def encode_twinseq(cfg, whichs):
+    """One stream made of several sequences: the same configuration with
+    mid-grey pictures and one thing changed per sequence (twin_config)."""
+    parts = []
+    for wh in whichs:
+        c = twin_config(dict(cfg, nseq=1, extras=None), wh)
+        parts.append(encode_stream(c))
+    return b"".join(parts)
+
+
 def wide_configs():
     """A handful of extreme-aspect configurations (one very long row / one very
     long column, shallow and very deep samples, flat pictures so that streams
